@@ -346,6 +346,13 @@ def family_programs():
         # crossing listed the other way round, an uncrossed factor last in the design
         out.append(("family:transition-minimumtrials",
                     cross([0, 1, 2], [1, 0], [0], [{"id": 0, "kind": "MinimumTrials", "trials": k}], [color, copy.deepcopy(tr), extra])))
+    # a session: the same design with a different weight on a crossed derived level, one call after the
+    # other in this process (the search core keeps module-level tables between calls;
+    # seed C29-reset-state-drops-all-weights)
+    for w in (2, 3, 1, 4, 2):
+        isr = {"id": 1, "name": "isr", "kind": "derived", "window": {"type": "within", "deps": [0]},
+               "levels": [{"name": "yes", "table": [[["r"]]], "weight": w}, {"name": "no", "else": True, "weight": 1}]}
+        out.append(("family:weighted-derived-session", cross([0, 1], [1], [], [], [color, isr])))
     win = {"id": 1, "name": "win", "kind": "derived", "window": {"type": "window", "deps": [0], "width": 2, "stride": 1, "start": 1},
            "levels": [{"name": "same", "table": [[["r", "r"]], [["g", "g"]]]},
                       {"name": "diff", "table": [[["r", "g"]], [["g", "r"]]]}]}
